@@ -6,6 +6,7 @@ import Mochi.Props.TieA.WriteLoop
 import Mochi.Props.TieA.Decode
 import Mochi.Props.TieA.Listener
 import Mochi.Props.TieA.Pool
+import Mochi.Props.TieA.Topics
 /-!
 # Tie A obligations over the regenerated tables and statement orders
 
@@ -18,6 +19,7 @@ import Mochi.Props.TieA.Pool
 | `TieA/WriteLoop.lean`  | `Gen/Programs.lean`   | `C34_writeloop_order_tied`                                    | C34 |
 | `TieA/Decode.lean`     | `Gen/Programs.lean`   | `C27_properties_decode_order_tied`                            | C27 C28 C26 |
 | `TieA/Listener.lean`   | `Gen/Programs.lean`   | `C36_tcp_serve_order_tied`, `C36_tcp_close_order_tied`        | C36 |
+| `TieA/Topics.lean`     | `Gen/Programs.lean`   | `C02_trim_order_tied`, `C01_scanSubscribers_order_tied`       | C01 C02 C03 C05 |
 | `TieA/Pool.lean`       | `Gen/Programs.lean`   | `C41_put_order_tied`, `C41_capped_put_order_tied`             | C41 |
 
 Self-test (extractor pointed at a mutated scratch copy of /repo): removing `Subscribe: 1` from the
